@@ -823,6 +823,14 @@ func init() {
 		js = append(js, mk(sprintf("c08.retry_after_failure.pre%d", rp), rootPkg, "ZZ_C08_Retry", nil,
 			func(b *Bounds) { b.Unwind = 60; b.Preempt = rp; b.Race = true; b.MaxPaths = 8000000; b.MaxWallS = 3000 }))
 		js = append(js, refreshJoinJob("c08", tier))
+		np := 1
+		if tier == "thorough" {
+			np = 2
+		}
+		nj := mk(sprintf("c08.non_writing_op_during_load.pre%d", np), rootPkg, "ZZ_C08_NonWritingOpDuringLoad", nil,
+			func(b *Bounds) { b.Unwind = 60; b.Preempt = np; b.Race = true; b.MaxPaths = 8000000; b.MaxWallS = 3000 })
+		nj.Labels = []string{"c08n.loader_invocations_do_not_overlap"}
+		js = append(js, nj)
 		c := mk("c08.canary", rootPkg, "ZZ_C08_SingleFlight", map[string]int{"callers": 2, "canary": 1}, func(b *Bounds) { b.Unwind = 60; b.Preempt = 0; b.Race = true })
 		c.Canary = "c08.canary"
 		return append(js, c)
